@@ -85,6 +85,125 @@ pub enum Op {
     /// re-encode a primitive string-typed value in the BER "constructed
     /// string" spelling; the variant number indexes [`CONS_VARIANTS`]
     Cons(u8),
+    /// replace the value by entry k of the typed value menu of the node's
+    /// tag ([`typed_values`]; time entries carry their own tag)
+    Value(u16),
+    /// reorder / extend the children of a constructed node
+    List(ListOp),
+}
+
+/// List-shape operators (at every constructed node: SEQUENCE OF / SET OF
+/// cannot be told from SEQUENCE without the schema, so all are treated alike).
+#[derive(Clone, Copy, Debug, PartialEq, Eq, Hash, PartialOrd, Ord)]
+pub enum ListOp {
+    Reverse,
+    /// move the first element to the end
+    RotL,
+    /// move the last element to the front
+    RotR,
+    /// sort by encoding, descending
+    SortDesc,
+    /// duplicate the first / last element and add 1 to the last octet of the copy
+    DupModFirst,
+    DupModLast,
+    /// insert, at the front / end, a copy of the first / last element whose
+    /// INTEGER and BIT STRING leaves are set to boundary value k (< LIST_BOUNDARY)
+    InsertFront(u8),
+    InsertEnd(u8),
+}
+
+pub const LIST_BOUNDARY: u8 = 5;
+
+//------------ typed value menus -------------------------------------------------
+
+static OID_POOL: std::sync::OnceLock<Vec<Vec<u8>>> = std::sync::OnceLock::new();
+
+/// Registers the contents of every OBJECT IDENTIFIER that occurs in any seed
+/// (sorted, distinct); the OID value menu is this pool.
+pub fn set_oid_pool(mut v: Vec<Vec<u8>>) { v.sort(); v.dedup(); let _ = OID_POOL.set(v); }
+pub fn oid_pool() -> &'static [Vec<u8>] { OID_POOL.get().map(|v| v.as_slice()).unwrap_or(&[]) }
+
+fn int_menu() -> Vec<Vec<u8>> {
+    let mut v: Vec<Vec<u8>> = vec![
+        vec![0], vec![1], vec![1, 0, 0], vec![0, 0xff, 0xff, 0xff, 0xff], vec![1, 0, 0, 0, 0],     // 0 1 65536 2^32-1 2^32 (list boundary values)
+        vec![0x7f], vec![0, 0x80], vec![0, 0xff], vec![1, 0], vec![0, 0xff, 0xff],                // 127 128 255 256 65535
+        vec![0x7f, 0xff, 0xff, 0xff], vec![0, 0x80, 0, 0, 0],                                     // 2^31-1 2^31
+        vec![0, 0x80, 0, 0, 0, 0, 0, 0, 0], vec![1, 0, 0, 0, 0, 0, 0, 0, 0],                      // 2^63 2^64
+    ];
+    let mut twenty = vec![0x7f]; twenty.extend(vec![0xff; 19]); v.push(twenty);                   // largest 20-octet value
+    let mut t21 = vec![0]; t21.extend(vec![0xff; 20]); v.push(t21);                               // 21 octets: 00 + 20 x FF
+    let mut t21b = vec![1]; t21b.extend(vec![0; 20]); v.push(t21b);                               // 21 octets: 2^160
+    v.push(vec![0xff]); v.push(vec![0x80]); v.push(vec![0x80, 0, 0, 0]);                          // -1 -128 -2^31
+    v.push(vec![0, 1]); v.push(vec![0, 0]);                                                       // superfluous leading zero
+    v
+}
+
+fn time_menu() -> Vec<(u8, Vec<u8>)> {
+    let mut v: Vec<(u8, Vec<u8>)> = Vec::new();
+    let g = |s: String| (0x18u8, s.into_bytes());
+    let u = |s: String| (0x17u8, s.into_bytes());
+    for y in [1900, 2000, 2100, 2400, 0, 9999] { for d in [28, 29, 30] { v.push(g(format!("{y:04}02{d:02}143955Z"))) } }
+    for yy in [0, 49, 50, 99] { for d in [28, 29, 30] { v.push(u(format!("{yy:02}02{d:02}143955Z"))) } }
+    for body in ["0014120000", "1314120000", "0100120000", "0132120000", "1114235959", "1114240000", "1114235960", "1114236059", "0431120000", "1231235959"] {
+        v.push(g(format!("2023{body}Z")));
+        v.push(u(format!("23{body}Z")));
+    }
+    for (y, rest) in [(2049, "1231235959"), (2050, "0101000000"), (1949, "1231235959"), (1950, "0101000000")] {
+        v.push(g(format!("{y}{rest}Z")));
+        v.push(u(format!("{:02}{rest}Z", y % 100)));
+    }
+    v
+}
+
+/// Number of entries of the typed value menu for a node with this tag.
+pub fn typed_value_count(tag: u8) -> usize {
+    match tag {
+        0x01 => 3,
+        0x02 => int_menu().len(),
+        0x03 => 10,
+        0x06 => oid_pool().len(),
+        0x17 | 0x18 => time_menu().len(),
+        t if is_string_tag(t) => 5,
+        _ => 0,
+    }
+}
+
+/// Entry k of the typed value menu: (tag to write, content).
+pub fn typed_value(tag: u8, content: &[u8], k: usize) -> (u8, Vec<u8>) {
+    let generic = |k: usize| -> Vec<u8> {
+        match k {
+            0 => vec![],
+            1 => vec![0x41],
+            2 => content[..content.len().saturating_sub(1)].to_vec(),
+            3 => { let mut c = content.to_vec(); c.push(0x41); c }
+            _ => vec![0xff; content.len().max(1)],
+        }
+    };
+    match tag {
+        0x01 => (tag, vec![[0x00u8, 0xff, 0x01][k % 3]]),
+        0x02 => { let m = int_menu(); (tag, m[k % m.len()].clone()) }
+        0x03 => {
+            let b: [&[u8]; 5] = [&[0], &[0, 0], &[0, 0xff, 0xff, 0xff, 0xff],
+                &[0, 0xff, 0xff, 0xff, 0xff, 0xff, 0xff, 0xff, 0xff, 0xff, 0xff, 0xff, 0xff, 0xff, 0xff, 0xff, 0xff], &[7, 0x80]];
+            if k < 5 { (tag, b[k].to_vec()) } else { (tag, generic(k - 5)) }
+        }
+        0x06 => { let p = oid_pool(); if p.is_empty() { (tag, content.to_vec()) } else { (tag, p[k % p.len()].clone()) } }
+        0x17 | 0x18 => { let m = time_menu(); m[k % m.len()].clone() }
+        _ => (tag, generic(k)),
+    }
+}
+
+/// Readable name of entry k of the typed value menu for `tag`.
+pub fn value_name(tag: u8, k: usize) -> String {
+    let generic = ["empty", "one-octet", "one-octet-short", "one-octet-more", "all-ones"];
+    let hexs = |b: &[u8]| b.iter().map(|x| format!("{x:02x}")).collect::<String>();
+    match tag {
+        0x17 | 0x18 => { let (t, c) = typed_value(tag, &[], k); format!("value={}:{}", if t == 0x17 { "utc" } else { "gen" }, String::from_utf8_lossy(&c)) }
+        0x01 | 0x02 | 0x06 => format!("value={}", hexs(&typed_value(tag, &[], k).1)),
+        0x03 if k < 5 => format!("value={}", hexs(&typed_value(tag, &[], k).1)),
+        0x03 => format!("value={}", generic[(k - 5) % 5]),
+        _ => format!("value={}", generic[k % 5]),
+    }
 }
 
 /// The constructed-string variants: (what, indefinite outer length).
@@ -205,6 +324,12 @@ impl Op {
             }
             Op::Nest(d) => format!("nest-indef{d}"),
             Op::NestDef(d) => format!("nest-def{d}"),
+            Op::Value(k) => format!("value#{k}"),
+            Op::List(l) => match l {
+                ListOp::Reverse => "list:reverse".into(), ListOp::RotL => "list:first-to-end".into(), ListOp::RotR => "list:last-to-front".into(),
+                ListOp::SortDesc => "list:sort-descending".into(), ListOp::DupModFirst => "list:dup-first-modified".into(), ListOp::DupModLast => "list:dup-last-modified".into(),
+                ListOp::InsertFront(k) => format!("list:insert-front-boundary{k}"), ListOp::InsertEnd(k) => format!("list:insert-end-boundary{k}"),
+            },
             Op::Cons(v) => {
                 let (k, indef) = CONS_VARIANTS[v as usize % CONS_VARIANTS.len()];
                 let k = match k {
@@ -379,6 +504,8 @@ impl Tree {
         }
         v.push(Op::OneZero);
         if is_string_tag(n.tag) { for k in 0..CONS_VARIANTS.len() as u8 { v.push(Op::Cons(k)) } }
+        if n.children.is_empty() || n.tag & 0x20 == 0 { for k in 0..typed_value_count(n.tag) { v.push(Op::Value(k as u16)) } }
+        for l in self.list_menu(i) { v.push(Op::List(l)) }
         if n.parent.is_some() {
             v.push(Op::Delete);
             v.push(Op::Duplicate);
@@ -410,11 +537,26 @@ impl Tree {
         }
         v.push(Op::OneZero);
         if is_string_tag(n.tag) { v.push(Op::Cons(CONS_SPLIT_MID)); v.push(Op::Cons(CONS_DUP_LAST)) }
+        if n.tag & 0x20 != 0 && n.children.len() >= 2 { v.push(Op::List(ListOp::Reverse)) }
         if n.parent.is_some() {
             v.push(Op::Delete);
             v.push(Op::Duplicate);
             if self.next_sibling(i).is_some() { v.push(Op::SwapNext) }
         }
+        v
+    }
+
+    /// The list-shape operators applicable at node `i`.
+    pub fn list_menu(&self, i: usize) -> Vec<ListOp> {
+        let n = &self.nodes[i];
+        let mut v = Vec::new();
+        if n.tag & 0x20 == 0 || n.children.is_empty() { return v }
+        let k = n.children.len();
+        if k >= 2 { v.push(ListOp::Reverse); v.push(ListOp::RotL); if k >= 3 { v.push(ListOp::RotR) } v.push(ListOp::SortDesc); v.push(ListOp::DupModFirst) }
+        v.push(ListOp::DupModLast);
+        let has_leaf = |c: usize| (c..c + self.nodes[c].size).any(|j| matches!(self.nodes[j].tag, 0x02 | 0x03));
+        if has_leaf(n.children[0]) { for b in 0..LIST_BOUNDARY { v.push(ListOp::InsertFront(b)) } }
+        if has_leaf(*n.children.last().unwrap()) { for b in 0..LIST_BOUNDARY { v.push(ListOp::InsertEnd(b)) } }
         v
     }
 
@@ -443,15 +585,16 @@ impl Tree {
         }
         // content, with the descendants' deviations applied
         let raw_content = &seed[n.start + n.hdr..n.content_end()];
-        let rebuilt: Option<Vec<u8>> = if below {
-            let mut c = Vec::with_capacity(n.len + 16);
+        let listop = match mine { Some(Op::List(l)) if !n.children.is_empty() => Some(l), _ => None };
+        let rebuilt: Option<Vec<u8>> = if below || listop.is_some() {
             let mut order: Vec<usize> = n.children.clone();
             let mut k = 0;
             while k + 1 < order.len() {
                 if Self::op_at(ops, order[k]) == Some(Op::SwapNext) { order.swap(k, k + 1); k += 2 } else { k += 1 }
             }
-            for ch in order { self.emit(seed, ch, ops, &mut c) }
-            Some(c)
+            let mut kids: Vec<Vec<u8>> = order.iter().map(|&ch| { let mut c = Vec::new(); self.emit(seed, ch, ops, &mut c); c }).collect();
+            if let Some(l) = listop { apply_list_op(&mut kids, l) }
+            Some(kids.concat())
         } else { None };
         let content: &[u8] = rebuilt.as_deref().unwrap_or(raw_content);
         let raw_lenfield = &seed[n.start + 1..n.start + n.hdr];
@@ -468,7 +611,11 @@ impl Tree {
         };
         let l = content.len();
         match mine {
-            None | Some(Op::SwapNext) => plain(n.tag, out),
+            None | Some(Op::SwapNext) | Some(Op::List(_)) => plain(n.tag, out),
+            Some(Op::Value(k)) => {
+                let (t, c) = typed_value(n.tag, content, k as usize);
+                out.push(t); out.extend(der::len_octets(c.len())); out.extend_from_slice(&c);
+            }
             Some(Op::Tag(t)) => plain(t, out),
             Some(Op::LenDec) => with_len(&der::len_octets(l.saturating_sub(1)), content, out),
             Some(Op::LenInc) => with_len(&der::len_octets(l + 1), content, out),
@@ -521,6 +668,31 @@ impl Tree {
             }
         }
     }
+}
+
+fn apply_list_op(kids: &mut Vec<Vec<u8>>, l: ListOp) {
+    if kids.is_empty() { return }
+    let bump = |e: &[u8]| { let mut c = e.to_vec(); if let Some(x) = c.last_mut() { *x = x.wrapping_add(1) } c };
+    match l {
+        ListOp::Reverse => kids.reverse(),
+        ListOp::RotL => kids.rotate_left(1),
+        ListOp::RotR => kids.rotate_right(1),
+        ListOp::SortDesc => { kids.sort(); kids.reverse() }
+        ListOp::DupModFirst => { let c = bump(&kids[0]); kids.insert(1, c) }
+        ListOp::DupModLast => { let c = bump(kids.last().unwrap()); kids.push(c) }
+        ListOp::InsertFront(b) => { let c = boundary_element(&kids[0], b); kids.insert(0, c) }
+        ListOp::InsertEnd(b) => { let c = boundary_element(kids.last().unwrap(), b); kids.push(c) }
+    }
+}
+
+/// A copy of `element` with every INTEGER and BIT STRING leaf set to
+/// boundary value `b` (entries 0..5 of the respective typed value menus).
+pub fn boundary_element(element: &[u8], b: u8) -> Vec<u8> {
+    let Some(t) = Tree::parse(element) else { return element.to_vec() };
+    let ops: Vec<(usize, Op)> = t.nodes.iter().enumerate()
+        .filter(|(_, n)| n.tag == 0x02 || n.tag == 0x03)
+        .map(|(i, _)| (i, Op::Value(b as u16))).collect();
+    t.apply(element, &ops)
 }
 
 /// Long-form length with one superfluous leading octet: 5 → `81 05`,
@@ -579,3 +751,56 @@ pub fn short_string(mut idx: u64, out: &mut Vec<u8>) {
 }
 
 pub fn short_string_count(max_len: u32) -> u64 { (0..=max_len).map(|n| 256u64.pow(n)).sum() }
+
+//------------ token-level operators for text entry points ------------------------
+
+#[derive(Clone, Copy, Debug, PartialEq, Eq)]
+pub enum TokOp { Reverse, RotL, RotR, SortDesc, Dup(u16), Delete(u16), SwapNext(u16), Replace(u16, u16), Insert(u16, u16) }
+
+pub fn split_tokens<'a>(text: &'a [u8], delim: &[u8]) -> Vec<&'a [u8]> {
+    let mut out = Vec::new();
+    let mut start = 0;
+    let mut i = 0;
+    while i + delim.len() <= text.len() {
+        if &text[i..i + delim.len()] == delim { out.push(&text[start..i]); i += delim.len(); start = i } else { i += 1 }
+    }
+    out.push(&text[start..]);
+    out
+}
+
+/// Every token-level case for `ntok` tokens and a replacement menu of `nmenu` tokens.
+pub fn token_ops(ntok: usize, nmenu: usize) -> Vec<TokOp> {
+    let mut v = vec![TokOp::Reverse, TokOp::RotL, TokOp::RotR, TokOp::SortDesc];
+    for k in 0..ntok as u16 {
+        v.push(TokOp::Dup(k)); v.push(TokOp::Delete(k));
+        if (k as usize) + 1 < ntok { v.push(TokOp::SwapNext(k)) }
+        for m in 0..nmenu as u16 { v.push(TokOp::Replace(k, m)) }
+    }
+    for pos in 0..=ntok as u16 { for m in 0..nmenu as u16 { v.push(TokOp::Insert(pos, m)) } }
+    v
+}
+
+pub fn token_apply(tokens: &[&[u8]], delim: &[u8], op: TokOp, menu: &[&[u8]]) -> Vec<u8> {
+    let mut t: Vec<Vec<u8>> = tokens.iter().map(|x| x.to_vec()).collect();
+    match op {
+        TokOp::Reverse => t.reverse(),
+        TokOp::RotL => { if !t.is_empty() { t.rotate_left(1) } }
+        TokOp::RotR => { if !t.is_empty() { t.rotate_right(1) } }
+        TokOp::SortDesc => { t.sort(); t.reverse() }
+        TokOp::Dup(k) => { let c = t[k as usize].clone(); t.insert(k as usize, c) }
+        TokOp::Delete(k) => { t.remove(k as usize); }
+        TokOp::SwapNext(k) => t.swap(k as usize, k as usize + 1),
+        TokOp::Replace(k, m) => t[k as usize] = menu[m as usize].to_vec(),
+        TokOp::Insert(p, m) => t.insert(p as usize, menu[m as usize].to_vec()),
+    }
+    t.join(delim)
+}
+
+pub fn tok_name(op: TokOp, menu: &[&[u8]]) -> String {
+    let m = |i: u16| String::from_utf8_lossy(menu[i as usize]).replace(' ', "_").replace('\n', "\\n");
+    match op {
+        TokOp::Reverse => "tok:reverse".into(), TokOp::RotL => "tok:first-to-end".into(), TokOp::RotR => "tok:last-to-front".into(), TokOp::SortDesc => "tok:sort-descending".into(),
+        TokOp::Dup(k) => format!("tok[{k}]:dup"), TokOp::Delete(k) => format!("tok[{k}]:delete"), TokOp::SwapNext(k) => format!("tok[{k}]:swapnext"),
+        TokOp::Replace(k, i) => format!("tok[{k}]:=<{}>", m(i)), TokOp::Insert(p, i) => format!("tok:insert@{p}<{}>", m(i)),
+    }
+}
